@@ -121,3 +121,31 @@ M("c02-one-copy-merge", "C02", "cola/libvpsc/block.cpp", "    double dist = c->r
   "    double dist = c->right->offset - c->left->offset + c->gap;\n    Block *l=c->left->block;", mention=["SIBLING"])
 M("c02-dfdv-weight", "C02", "cola/libvpsc/variable.h", "\t\treturn 2. * weight * ( position() - desiredPosition );",
   "\t\treturn 2. * ( position() - desiredPosition );", mention=["DFDV-FORM"], tu=["cola/libvpsc/variable.cpp"])
+
+# ---------------------------------------------------------------- C18
+M("c18-rot-lost-minus", "C18", "cola/libdialect/constraints.cpp",
+  "            g = xgap;\n            xgap = -ygap;\n            ygap = g;\n            break;\n        case SepTransform::ROTATE90ACW:",
+  "            g = xgap;\n            xgap = ygap;\n            ygap = g;\n            break;\n        case SepTransform::ROTATE90ACW:",
+  mention=["TRANSFORM-MATRIX", "ROTATE90CW"])
+M("c18-rot-zero-minus", "C18", "cola/libdialect/constraints.cpp",
+  "            xgap = -xgap;\n            ygap = -ygap;\n            break;\n        case SepTransform::FLIPV:",
+  "            xgap = 0 - xgap;\n            ygap = -ygap;\n            break;\n        case SepTransform::FLIPV:",
+  mention=["NEG-ZERO", "SepPair::transform"])
+M("c18-flipmd-no-type-swap", "C18", "cola/libdialect/constraints.cpp",
+  "        case SepTransform::FLIPMD:\n            // Swap x- and y-types.\n            swap(xst, yst);\n            swap(xgt, ygt);",
+  "        case SepTransform::FLIPMD:\n            // Swap x- and y-types.\n            swap(xst, yst);", mention=["TRANSFORM-MATRIX", "FLIPMD"])
+M("c18-negate-table", "C18", "cola/libdialect/constraints.cpp",
+  "    case SepDir::DOWN:\n        return SepDir::UP;", "    case SepDir::DOWN:\n        return SepDir::DOWN;", mention=["ENUM-TABLES", "negateSepDir"])
+M("c18-addsep-west-sign", "C18", "cola/libdialect/constraints.cpp",
+  "    case SepDir::LEFT:\n        xgt = gt;\n        xst = st;\n        xgap = -gap;", "    case SepDir::LEFT:\n        xgt = gt;\n        xst = st;\n        xgap = gap;",
+  mention=["DIR-COMMUTE"])
+M("c18-flipped-stale", "C18", "cola/libdialect/constraints.cpp",
+  "        }\n        // Report the orientation of *this* retrieval, also for an existing pair.\n        sp->flippedRetrieval = true;\n        return sp;",
+  "            sp->flippedRetrieval = true;\n        }\n        return sp;", mention=["FLIPPED-RETRIEVAL", "getSepPair"])
+M("c18-flipped-wrong-value", "C18", "cola/libdialect/constraints.cpp",
+  "                sp->flippedRetrieval = flipped;", "                sp->flippedRetrieval = !flipped;", mention=["FLIPPED-RETRIEVAL", "checkSepPair"])
+M("c18-graph-rotates-other-way", "C18", "cola/libdialect/graphs.cpp",
+  "    auto nodeMap = Compass::getRotationFunction(CardinalDir::EAST, CardinalDir::SOUTH);", "    auto nodeMap = Compass::getRotationFunction(CardinalDir::EAST, CardinalDir::NORTH);",
+  mention=["TRANSFORM-MATRIX", "rotate90cw"])
+M("c18-neutral-temp", "C18", "cola/libdialect/constraints.cpp",
+  "            g = xgap;\n            xgap = ygap;\n            ygap = -g;", "            g = -xgap;\n            xgap = ygap;\n            ygap = g;", expect="silent")
